@@ -14,7 +14,7 @@
   Callbacks are data (`Beh`): the `n`-th FIRE invocation of the callback of watch slot `k` runs a
   list of actions.  Unbind and destroy notifications are passive (they are logged, they do not act).
 
-  The variants of the source text that the proposed repairs introduce are a `Config`; the driver
+  The variants of the source text that the repairs introduced (all of them have landed in /repo) are a `Config`; the driver
   takes it from `Gen/EvLoop.lean`, which is regenerated from the C source on every run.
 
   Core Lean only; everything is structurally recursive (loops whose length depends on what callbacks
@@ -888,6 +888,19 @@ def sigSnapLoopT (fuel : Nat) (st : St) (signum : Int) : List Nat → St × List
     else if !st.live a then (st.fail .sigLoopThis, [])
     else ((sigSnapLoopT fuel (sigCb fuel st a signum) signum rest).1,
           a :: (sigSnapLoopT fuel (sigCb fuel st a signum) signum rest).2)
+
+/-- The loop of the repaired walk with the body `if(this->signal.signum == signum) (*this->fn)(…)` abstracted as `cb`:
+    `sigSnapLoopT fuel st signum l = sigSnapLoopG (fun st a => sigCb fuel st a signum) st l` (Proof/EvLoopSig.lean,
+    `sigSnapLoopT_eq_G`).  Model/EvLoopFb.lean instantiates it with the callbacks of the self-pipe configuration, so
+    that the theorems about the walk are proved once. -/
+def sigSnapLoopG (cb : St → Nat → St) (st : St) : List Nat → St × List Nat
+  | [] => (st, [])
+  | a :: rest =>
+    if !st.isOk then (st, [])
+    else if !st.allLive (st.signals.takeWhile (· ≠ a)) then (st.fail .sigLoopThis, [])
+    else if !st.signals.contains a then sigSnapLoopG cb st rest
+    else if !st.live a then (st.fail .sigLoopThis, [])
+    else ((sigSnapLoopG cb (cb st a) rest).1, a :: (sigSnapLoopG cb (cb st a) rest).2)
 
 /-- `tickit_evloop_invoke_sigwatches` in the variant the source has. -/
 def sigDispatch (fuel : Nat) (st : St) (signum : Int) : St :=
